@@ -94,7 +94,7 @@ def stub_names():
 
 class Obligation:
     def __init__(self, name, prop, harness, entry, tus, defs=None, libdefs=None, cdefs=None, unwind=8, unwindset=None,
-                 tier='quick', timeout=240, mem_gb=6, pipeline='O1', kf=None, solver=None, extra_stub=None, note='', bounds='',
+                 tier='quick', timeout=240, mem_gb=3, pipeline='O1', kf=None, solver=None, extra_stub=None, note='', bounds='',
                  seltest=True, cbmc_extra=None, extra_c=None, engine='E1'):
         self.name = name; self.prop = prop; self.harness = harness; self.entry = entry; self.tus = list(tus)
         self.defs = dict(defs or {}); self.libdefs = dict(libdefs or {}); self.cdefs = dict(cdefs or {})
@@ -271,7 +271,7 @@ class Runner:
             if usd: cmd += ['--unwindset', ','.join('%s:%d' % kv for kv in usd.items())]
         if ob.solver == 'kissat': cmd += ['--external-sat-solver', 'kissat']
         elif ob.solver == 'cadical': cmd += ['--sat-solver', 'cadical']
-        rc, so, se, w, rss = run(cmd, timeout=ob.timeout, mem_gb=ob.mem_gb * 2.5)
+        rc, so, se, w, rss = run(cmd, timeout=ob.timeout, mem_gb=max(ob.mem_gb * 3, 12))
         open(os.path.join(d, 'cbmc%s.out' % tag), 'w').write('CMD: ' + ' '.join(cmd) + '\n' + so + '\n--- stderr ---\n' + se)
         res = dict(cmd=' '.join(cmd), wall_s=round(w, 1), rc=rc)
         if rc is None:
